@@ -28,6 +28,12 @@ CLAIMED = {
             T("places the last commits/closes inside cooldown windows and checks at exact quiescence (no task runnable, no timer pending) that the buffer holds exactly the slowest open consumer's backlog / at most max."), NOTE, "DESIGN.md section 5 (C04)"),
     "C05": ("deterministic simulation: seeded schedules x cancel/close/put placements; quiescence oracle for lost wake-ups, sequential model for failed Gets",
             T("places Puts, context cancellations and Buffer.Close before the check, between check and park, and after the park of blocked Gets and direct WaitCond waiters; 'no wake-up is lost' is checked at exact quiescence instead of by sleeping."), NOTE, "DESIGN.md section 5 (C05)"),
+    "C06": ("deterministic simulation; per-message receipt accounting, real-time brackets, order witness over subscription streams",
+            T("mixes SubscribeContext iterators and manual Add/C/Wait subscribers with joins, leaves, context cancels and stalls placed inside every window of Send; checks exactly-n receipts, must-receive / must-not-receive by stamps, acknowledgement before Send returns and one global order."), NOTE, "DESIGN.md section 5 (C06)"),
+    "C07": ("deterministic simulation; deadlock/livelock detection at lock/atomic/channel granularity, invariant-panic and count oracles, fresh-round probe",
+            T("heavy membership churn (mid-send unsubscribe, before first receive, context cancel, early break, iterator never run); every call must have returned at quiescence, nothing may panic, Add(0) equals subscriptions minus unsubscriptions and a fresh subscriber + Send round works."), NOTE, "DESIGN.md section 5 (C07)"),
+    "C08": ("deterministic simulation with misuse fault injection; receipt accounting, conservation, panic-stickiness oracle",
+            T("drives the bare ChanCaster (unbuffered and buffered) with racing Sends, positive and negative Adds and give-ups, and injects out-of-range, unbalanced and overflowing Adds; checks counts, must-receive, late registrations, Add(0) after Send, termination, and that misuse keeps panicking."), NOTE, "DESIGN.md section 5 (C08)"),
     "C09": ("deterministic simulation; interval non-overlap per key, other-keys-complete-while-held at quiescence",
             T("mixes every Exclusive call style over 1-3 keys with work functions that resolve early, are held on gates, or never resolve, and checks per-key execution intervals for overlap and cross-key independence at quiescence."), NOTE, "DESIGN.md section 5 (C09)"),
     "C10": ("deterministic simulation; call-to-execution attribution by stamps, exactly-one-outcome, coalescing and fresh-call oracles",
@@ -35,6 +41,8 @@ CLAIMED = {
     "C11": ("deterministic simulation under the Go race detector: simulator hand-offs hidden (RaceDisable), shims annotated with the real primitives' happens-before edges",
             T("the same kinds of concurrent workloads are rebuilt with -race; the detector sees only the program's own synchronisation, on schedules the simulator chooses, and reports are attributed to the seed that produced them."),
             NOTE + " The race detector's own shadow memory is bounded, so a report may need more than one fresh process to recur on replay.", "DESIGN.md sections 3.8, 5 (C11)"),
+    "C12": ("deterministic simulation; random lifecycle programs, close/cancel orders racing in-flight calls, exact task registry for the leak check",
+            T("builds random programs over every handle type, closes and cancels in drawn orders while calls are in flight, and checks that Close returns, Done closes, later calls fail cleanly, a second Close errors, contents stay readable and, at quiescence with all timers drained, every goroutine the library started has exited (exact registry of spawn sites)."), NOTE, "DESIGN.md section 5 (C12)"),
     "C13": ("deterministic simulation; porcupine linearizability of the recorded Get/Commit/Rollback/Buffer/Close history against a sequential model, conservation at the end",
             T("feeds a source channel, issues concurrent Get/Commit/Rollback/Buffer/Close with cancels, parent-context cancels and source closes, checks the stamped history for linearizability (inconclusive results are counted, never reported) and checks conservation, no zero values, nothing taken after Done."), NOTE, "DESIGN.md section 5 (C13)"),
     "C14": ("deterministic simulation; exactly-once/result identity, online concurrency bound, starvation and Wait oracles at quiescence",
@@ -45,6 +53,10 @@ CLAIMED = {
             T("draws inputs (plain, parent-cancelled, foreign, timeout, nil, duplicate, pre-cancelled), cancels them from several tasks in drawn orders, and checks cancelled-iff tables, Value delegation and exactly-once hooks; liveness only at quiescence."), NOTE, "DESIGN.md section 5 (C16)"),
     "C17": ("deterministic simulation; per-step stop-channel polling for exact close stamps, interval and holder oracles",
             T("interleaves Do/done of 1-5 holders with instances starting, stopping and exiting; a per-step hook stamps exactly when each stop channel closes, so 'stopped only after every holder is done' is decided exactly."), NOTE, "DESIGN.md section 5 (C17)"),
+    "C18": ("deterministic simulation with scripted operation faults; call accounting by stamps, timer-request log for back-off durations",
+            T("scripts operation outcomes (plain errors, nested fatal errors, success), durations and rates, cancels before / during a call / during a wait, draws the random slots from the simulator's choice stream (biased to 0 and max, including >= 33 failures), and checks call count, result identity, no call after cancel and every requested wait."), NOTE, "DESIGN.md section 5 (C18)"),
+    "C20": ("deterministic simulation; per-step channel observation, receipt accounting around the cancel stamp, producer-exit check in the task registry",
+            T("varies count, rate, receiver pace (prompt, stalled, absent, late) and the cancel instant relative to ticks; checks first value immediately, at most count values, monotone stamps, cap 1, at most two values after cancel, always closed, producer exits and its ticker is stopped."), NOTE, "DESIGN.md section 5 (C20)"),
 }
 
 NOT_YET = "check not built yet in this session (framework under construction); see DESIGN.md section 5"
